@@ -725,7 +725,8 @@ static int rtr_handle_cache_response_pdu(struct rtr_socket *rtr_socket, char *pd
 		if (rtr_socket->last_update != 0) {
 			RTR_DBG1("Resetting Socket.");
 
-			rtr_socket->last_update = 0;
+			// last_update is kept: if this reload fails the old records
+			// must still expire and the next attempt must be atomic again
 			rtr_socket->is_resetting = true;
 		}
 		rtr_socket->session_id = cr_pdu->session_id;
